@@ -288,6 +288,17 @@ def batch_transform(idx: ProgramIndex, rep: Report):
 # ---- C06-3 ---------------------------------------------------------------------------------------------------------
 def evaluate_kernel_restore(idx: ProgramIndex, rep: Report):
     L = idx.cls("gpytorch.lazy.lazy_evaluated_kernel_tensor", "LazyEvaluatedKernelTensor")
+    # every site of the lazy tensor that evaluates the kernel through Kernel.__call__ works on inputs that __call__ has already
+    # restricted to active_dims: it must disable active_dims around the call (the evaluate_kernel idiom) or bypass __call__
+    for name, m in sorted(L.methods.items()):
+        if name == "evaluate_kernel":
+            continue
+        for c in calls_in(m.node):
+            if chain(c.func) == "self.kernel" and len(c.args) >= 2:
+                nulls = any(isinstance(n, ast.Assign) and src(n.targets[0]) == "self.kernel.active_dims" and isinstance(n.value, ast.Constant) and n.value.value is None for n in ast.walk(m.node))
+                rep.add("C06-3", "%s:LazyEvaluatedKernelTensor.%s[self.kernel(...)]" % (L.module.name, name), "%s:%d" % (m.module.relpath, c.lineno), nulls,
+                        "active_dims disabled around the kernel call" if nulls else
+                        "%s evaluates self.kernel(...) through Kernel.__call__ on the stored (already restricted) inputs without disabling active_dims: they are applied a second time" % name, {})
     fi = idx.method(L, "evaluate_kernel", own=True)
     save = null = restore = None
     assigns = [n for n in ast.walk(fi.node) if isinstance(n, ast.Assign) and len(n.targets) == 1]
